@@ -162,9 +162,11 @@ def probe_portfolio(spec):
             k4 = max(1, int(opts['refix']) % max(tg4.T, 1))
             fw = {'I': np.arange(tg4.T) < k4, 'x': np.asarray(o['x'], float)}
             op4 = pf4.setup_optim_problem(pr4, tg4, fix_time_window=fw)
+            prob4 = dump_problem(op4)
             r4 = op4.optimize()
             o['refix'] = {'solve': r4 if isinstance(r4, str) else 'optimal', 'k': k4}
             if not isinstance(r4, str):
+                o['refix'].update(problem=prob4, duals=dump_duals(r4.duals))
                 o['refix'].update(value=float(r4.value), x=[float(v) for v in r4.x], c=[float(v) for v in op4.c], mapping=dump_mapping(op4.mapping),
                                   out=tables(pf4, op4, r4))
         except Exception as e:
